@@ -103,6 +103,11 @@ let handle (payload : string) : string =
       if List.hd a = "M" then cls "multi";
       st := step !st (if List.hd a = "S" then OSet (k, v) else OSetMulti (k, v));
       emit ("s" ^ n ^ "=" ^ dump !st.mem)
+    | ["I"; k; v] -> cls "typed"; st := { !st with mem = set_value_uint (bytes_of_hex k) (n_of_string v) !st.mem }; emit ("s" ^ n ^ "=" ^ dump !st.mem)
+    | ["J"; k; v] -> cls "typed"; st := { !st with mem = set_value_int (bytes_of_hex k) (z_of_int (ios v)) !st.mem }; emit ("s" ^ n ^ "=" ^ dump !st.mem)
+    | ["N"; k; v] -> cls "typed"; st := { !st with mem = set_multiple_value_uint (bytes_of_hex k) (n_of_string v) !st.mem }; emit ("s" ^ n ^ "=" ^ dump !st.mem)
+    | ["T"; k; v] -> cls "typed"; st := { !st with mem = set_value_bool (bytes_of_hex k) (v = "1") !st.mem }; emit ("s" ^ n ^ "=" ^ dump !st.mem)
+    | ["b"; k] -> emit ("s" ^ n ^ "=" ^ (if get_value_bool (bytes_of_hex k) !st.mem then "b1" else "b0"))
     | ["R"; k] -> st := step !st (ORemove (bytes_of_hex k)); cls "remove"; emit ("s" ^ n ^ "=" ^ dump !st.mem)
     | ["C"] -> st := step !st OClear; emit ("s" ^ n ^ "=" ^ dump !st.mem)
     | ["G"; k] ->
